@@ -9,11 +9,23 @@
    Sharing BELOW the top level of a row (a nested row inside an Auto cell is shared by
    CloneRow) is outside the model, as the property restricts clones to top-level changes.
    HShare (dst.SetValue(k2, src.GetValue(k)): handing one row's Value object to another)
-   is the only way to share an object and is excluded by [no_sharing]: example below. *)
+   is the only way to share an object and is excluded by [no_sharing]: example below.
+   REFINEMENT (proofs/HeapRefine.v, theorems C15_refines_* below): after a step the view of the
+   row the step writes or creates is the result of the pure function of Row.v / Template.v
+   applied to the view before, up to the representation of the association list
+   ([crow_equiv a b]: same key list [row_l], and [get_value k] equal for every k). Invariants:
+   [sound W] = [owned W] /\ [allocated W] (every id a row holds has a content) /\ [unshared W]
+   (no row binds two keys to one object); [good W] = [sound W] /\ [rows_inv W] (every view
+   satisfies the row invariant [Inv] of RowProofs.v). [good] holds in the empty world and is
+   kept by every step without explicit sharing (C15_good_step, C15_good_reachable).
+   [pure_result O p W o]: the row index an operation writes / creates and its content as the pure
+   model computes it from the views before (None: no effect). C15_refines_step: refinement and
+   frame in one statement — the view of every existing row after a step is determined by the
+   pure model. *)
 From Coq Require Import ZArith List Bool.
 From JL.std Require Import GoBase GoVal.
 From JL.model Require Import Row Template Heap.
-From JL.proofs Require Import HeapProofs.
+From JL.proofs Require Import RowProofs HeapProofs HeapRefine.
 Import ListNotations.
 
 (* one operation: ownership is kept, and every row other than the target is exactly as before *)
@@ -54,3 +66,138 @@ Example C15_example : forall O p,
   view (hstep O p W (HImportAtKey 2 [97] (RS (VInt KInt 5)))) 1 = view W 1
   /\ view (hstep O p W (HImportAtKey 2 [97] (RS (VInt KInt 5)))) 0 = view W 0.
 Proof. intros O p. vm_compute. split; reflexivity. Qed.
+
+(* ---------- refinement: the store model computes what the pure model computes ---------- *)
+(* the two primitive effects are the pure store (for a bound key: set_cell) *)
+Theorem C15_refines_store_fresh : forall W rid k c v,
+  sound W -> view W rid = Some v ->
+  exists v', view (store_fresh W rid k c) rid = Some v' /\ crow_equiv v' (store k c v).
+Proof. exact store_fresh_refines. Qed.
+Print Assumptions C15_refines_store_fresh.
+
+Theorem C15_refines_mutate : forall W rid k c v,
+  sound W -> view W rid = Some v -> row_has k v = true ->
+  exists v', view (mutate W rid k c) rid = Some v' /\ crow_equiv v' (set_cell k c v).
+Proof. exact mutate_refines_set_cell. Qed.
+Print Assumptions C15_refines_mutate.
+
+(* the row created from a pure row is that row *)
+Theorem C15_refines_new_row_from : forall W r,
+  sound W -> Inv r ->
+  exists v', view (new_row_from W r) (length (rows W)) = Some v' /\ crow_equiv v' r.
+Proof. exact new_row_from_refines. Qed.
+Print Assumptions C15_refines_new_row_from.
+
+(* one statement per operation of hstep *)
+Theorem C15_refines_with : forall (O : oracles) parse_top W t name f typ v,
+  sound W -> view W t = Some v ->
+  exists v', view (hstep O parse_top W (HWith t name f typ)) t = Some v'
+             /\ crow_equiv v' (with_col name f typ v).
+Proof. exact refines_HWith. Qed.
+Print Assumptions C15_refines_with.
+
+Theorem C15_refines_with_row : forall (O : oracles) parse_top W t name sub v sv t',
+  sound W -> view W t = Some v -> view W sub = Some sv -> with_row O FUELH name sv v = Ok t' ->
+  exists v', view (hstep O parse_top W (HWithRow t name sub)) t = Some v' /\ crow_equiv v' t'.
+Proof. exact refines_HWithRow. Qed.
+Print Assumptions C15_refines_with_row.
+
+Theorem C15_refines_create_empty : forall (O : oracles) parse_top W t tv r,
+  sound W -> view W t = Some tv -> Inv tv -> clone_row O FUELH tv = Ok r ->
+  exists v', view (hstep O parse_top W (HCreateEmpty t)) (length (rows W)) = Some v' /\ crow_equiv v' r.
+Proof. exact refines_HCreateEmpty. Qed.
+Print Assumptions C15_refines_create_empty.
+
+Theorem C15_refines_create : forall (O : oracles) parse_top W t input tv r,
+  sound W -> view W t = Some tv -> Inv tv -> create_row O parse_top FUELH tv input = Ok r ->
+  exists v', view (hstep O parse_top W (HCreate t input)) (length (rows W)) = Some v' /\ crow_equiv v' r.
+Proof. exact refines_HCreate. Qed.
+Print Assumptions C15_refines_create.
+
+Theorem C15_refines_create_from_row : forall (O : oracles) parse_top W t src tv sv r,
+  sound W -> view W t = Some tv -> view W src = Some sv -> Inv tv ->
+  create_row O parse_top FUELH tv (RV (CRow sv)) = Ok r ->
+  exists v', view (hstep O parse_top W (HCreateFromRow t src)) (length (rows W)) = Some v' /\ crow_equiv v' r.
+Proof. exact refines_HCreateFromRow. Qed.
+Print Assumptions C15_refines_create_from_row.
+
+Theorem C15_refines_set : forall (O : oracles) parse_top W r k x v r',
+  sound W -> view W r = Some v -> row_set O k x v = Ok r' ->
+  exists v', view (hstep O parse_top W (HSet r k x)) r = Some v' /\ crow_equiv v' r'.
+Proof. exact refines_HSet. Qed.
+Print Assumptions C15_refines_set.
+
+Theorem C15_refines_import_at_key : forall (O : oracles) parse_top W r k x v,
+  sound W -> view W r = Some v ->
+  exists v', view (hstep O parse_top W (HImportAtKey r k x)) r = Some v'
+             /\ crow_equiv v' (fst (import_at_key O FUELH k x v)).
+Proof. exact refines_HImportAtKey. Qed.
+Print Assumptions C15_refines_import_at_key.
+
+Theorem C15_refines_import_at_path : forall (O : oracles) parse_top W r p x v,
+  sound W -> view W r = Some v ->
+  exists v', view (hstep O parse_top W (HImportAtPath r p x)) r = Some v'
+             /\ crow_equiv v' (fst (import_at_path O FUELH p x v)).
+Proof. exact refines_HImportAtPath. Qed.
+Print Assumptions C15_refines_import_at_path.
+
+Theorem C15_refines_unmarshal : forall (O : oracles) parse_top W r text v,
+  sound W -> view W r = Some v -> Inv v ->
+  exists v', view (hstep O parse_top W (HUnmarshal r text)) r = Some v'
+             /\ crow_equiv v' (fst (unmarshal_text O parse_top FUELH text v)).
+Proof. exact refines_HUnmarshal. Qed.
+Print Assumptions C15_refines_unmarshal.
+
+(* the invariants hold in every world reachable without explicit sharing *)
+Theorem C15_good_step : forall (O : oracles) parse_top W o,
+  good W -> no_sharing o -> good (hstep O parse_top W o).
+Proof. exact hstep_good. Qed.
+Print Assumptions C15_good_step.
+
+Theorem C15_good_reachable : forall (O : oracles) parse_top ops,
+  Forall no_sharing ops -> good (hrun O parse_top ops empty_world).
+Proof. intros O p ops H. apply hrun_good; [apply good_empty | exact H]. Qed.
+Print Assumptions C15_good_reachable.
+
+(* refinement and frame in one statement: after a step the view of every row that existed is
+   the pure result for the row the operation writes, and the view before for every other row;
+   when the pure model computes no result (missing row, failed creation, failed Set) nothing
+   changes at all; the row a creation operation adds is the pure result *)
+Theorem C15_refines_step : forall (O : oracles) parse_top W o x,
+  good W -> no_sharing o -> (x < length (rows W))%nat ->
+  match pure_result O parse_top W o with
+  | Some (y, r) =>
+      if Nat.eqb y x then exists v', view (hstep O parse_top W o) x = Some v' /\ crow_equiv v' r
+      else view (hstep O parse_top W o) x = view W x
+  | None => view (hstep O parse_top W o) x = view W x
+  end.
+Proof. exact hstep_view. Qed.
+Print Assumptions C15_refines_step.
+
+Theorem C15_refines_result : forall (O : oracles) parse_top W o x r,
+  good W -> pure_result O parse_top W o = Some (x, r) ->
+  exists v', view (hstep O parse_top W o) x = Some v' /\ crow_equiv v' r.
+Proof. exact hstep_refines. Qed.
+Print Assumptions C15_refines_result.
+
+Theorem C15_refines_no_result : forall (O : oracles) parse_top W o,
+  no_sharing o -> pure_result O parse_top W o = None -> hstep O parse_top W o = W.
+Proof. exact hstep_unchanged. Qed.
+Print Assumptions C15_refines_no_result.
+
+(* non-vacuity: in a reachable world with a template, two rows and a set key, the pure model
+   computes a result for ImportAtKey on row 2 and for CreateRowEmpty, and the views agree *)
+Example C15_refines_example : forall O p,
+  let W := hrun O p [HNewTemplate; HWith 0 [97] FNumeric VNil; HCreateEmpty 0; HCreateEmpty 0;
+                     HSet 1 [97] (RS (VInt KInt 1))] empty_world in
+  good W
+  /\ (exists r, pure_result O p W (HImportAtKey 2 [97] (RS (VInt KInt 5))) = Some (2%nat, r)
+               /\ view (hstep O p W (HImportAtKey 2 [97] (RS (VInt KInt 5)))) 2 = Some r)
+  /\ (exists r, pure_result O p W (HCreateEmpty 0) = Some (3%nat, r)
+               /\ view (hstep O p W (HCreateEmpty 0)) 3 = Some r).
+Proof.
+  intros O p. split; [|split].
+  - apply hrun_good; [apply good_empty | repeat constructor].
+  - eexists. split; vm_compute; reflexivity.
+  - eexists. split; vm_compute; reflexivity.
+Qed.
